@@ -54,6 +54,10 @@ EXPLANATION += (
     ' Round 6: between chunk arrival and kernel the query matrix is never reduced along the cell axis (R-AXIS/no-reduction-over-cells).'
 )
 
+EXPLANATION += (
+    ' Round 7: the on-disk transposition that turns a CSC query into rows computes positions in the index space they are used in (R-SPACE, rule of C13).'
+)
+
 RULE_TEXT = (
     "one obligation per kernel function x configuration (declared type, "
     "row independence) and per index identity")
@@ -91,6 +95,11 @@ def check(ctx):
     from .C05 import check_scatter
     check_scatter(ctx)
     check_no_reduction_over_cells(ctx)
+    # a CSC query is turned into rows by the on-disk transposition: its
+    # positions are computed in the index space they are used in (rule of
+    # C13), or a cell receives other cells' values
+    from .C13 import check_index_spaces
+    check_index_spaces(ctx)
 
 
 def check_cell_selection(ctx):
